@@ -36,6 +36,9 @@ func acquireDecoder() *Decoder {
 		dec.useSkipProba = false
 		dec.skipP = 0
 		dec.filterType = 0
+		// A decode that fails in the middle of a row leaves the left intra
+		// modes dirty; a fresh Decoder starts with BDCPred (0) everywhere.
+		dec.intraL = [4]uint8{}
 		dec.AlphaData = nil
 		return dec
 	}
